@@ -153,7 +153,8 @@ fn c05_btmap_layout_sanity() {
 /// `SecretRatchets::message_key_generation` (the receive path's dispatch between a leaf's two ratchets): the
 /// request is served by the ratchet of the REQUESTED key type only, at the REQUESTED generation, whatever the
 /// other ratchet's generation is; the other ratchet is untouched (application and handshake never share keys).
-fn dispatch_case(app: bool) {
+fn dispatch_case(app: bool) { dispatch_case_g(app, 1) }
+fn dispatch_case_g(app: bool, max_gap: u32) {
     use mls_rs::verif::derive::SecretRatchets;
     let uf = Uf::fresh();
     let sa = any_bytes::<NH>();
@@ -162,7 +163,7 @@ fn dispatch_case(app: bool) {
     let gh: u32 = kani::any();
     kani::assume(ga <= u32::MAX - 2000 && gh <= u32::MAX - 2000);
     let gap: u32 = kani::any();
-    kani::assume(gap <= 1);
+    kani::assume(gap <= max_gap);
     let mut rs = SecretRatchets { application: ratchet_new(vec_of(sa), ga), handshake: ratchet_new(vec_of(sh), gh) };
     let (kt, own) = if app { (KeyType::Application, ga) } else { (KeyType::Handshake, gh) };
     let g = own + gap;
@@ -175,7 +176,7 @@ fn dispatch_case(app: bool) {
             assert!(ratchet_history_len(mine) as u32 == gap, "skipped generations of the requested ratchet are parked");
             assert!(ratchet_generation(other) == other_g && rk::eq(ratchet_secret(other), other_s) && ratchet_history_len(other) == 0,
                 "a request for one key type touched the other key type's ratchet");
-            kani::cover!(gap == 1 && g == other_g, "skipping request whose generation equals the other ratchet's");
+            kani::cover!(gap == max_gap && g == other_g, "skipping request whose generation equals the other ratchet's");
             kani::cover!(gap == 0 && g != other_g);
             forget(k);
         }
@@ -239,3 +240,6 @@ fn two_jumps_then_any() {
     kani::cover!(true);
 }
 ooo!(c05_ooo_two_jumps_then_any: two_jumps_then_any, 6);
+fn dispatch_app3() { dispatch_case_g(true, 3) }
+fn dispatch_hs3() { dispatch_case_g(false, 3) }
+ooo!(c05_dispatch_application_gap3: dispatch_app3, 6; c05_dispatch_handshake_gap3: dispatch_hs3, 6);
